@@ -362,7 +362,11 @@ func limitSleepShape(c *Ctx, lr *limitRoles, rule string, strict bool) {
 		}
 		if !strict {
 			// the start time must be read once per batch: the reading function must not contain the outer loop
-			if fn == lr.outer || p.Reach(fn)[lr.outer] {
+			perBatch := fn != lr.outer && !p.Reach(fn)[lr.outer]
+			if fn == lr.outer && blockInLoop(t0i.Block()) {
+				perBatch = true // read inside the batch loop of the outer function: once per batch
+			}
+			if !perBatch {
 				problems = append(problems, "start time is read at "+p.InstrPos(t0i)+" outside the per-batch code: elapsed time accumulates over batches and the pause shrinks below Interval - batch duration")
 			}
 		}
